@@ -192,7 +192,8 @@ def canon(x, shallow=False, inside=False) -> str:
 def attack_strings(g, ntok: int):
     NODE_REGISTRY.clear()
     leaf_cids = [g["AV"](0).content_id, g["AF"]().content_id]
-    toks = ["1", "2", ":", "=", "(", ")", "[", "]", "@", "):b=<class 'str'>(", "):a=<class 'str'>(", "<class 'str'>"]
+    # the escape character of the digest format belongs to the alphabet as well
+    toks = ["1", "2", ":", "=", "(", ")", "[", "]", "@", "\\", "):b=<class 'str'>(", "):a=<class 'str'>(", "<class 'str'>"]
     toks += [f"):c[-1]={cid}" for cid in leaf_cids] + [f":c[-1]={leaf_cids[0]}"]
     out = {""}
     for k in range(1, ntok + 1):
